@@ -10,6 +10,7 @@ import (
 
 	"harness/engine"
 
+	"github.com/virus-evolution/gofasta/pkg/encoding"
 	"github.com/virus-evolution/gofasta/pkg/fastaio"
 	"github.com/virus-evolution/gofasta/pkg/variants"
 	"github.com/virus-evolution/gofasta/pkg/zzvs"
@@ -504,7 +505,7 @@ func init() {
 				jobs = append(jobs, fmt.Sprintf("layout:%d", i))
 				jobs = append(jobs, fmt.Sprintf("corrupt:%d", i))
 				if i == 0 {
-					jobs = append(jobs, "many")
+					jobs = append(jobs, "many", "readersconc-ref")
 				}
 			}
 			jobs = append(jobs, "cli")
@@ -596,6 +597,34 @@ func init() {
 						try(strings.Join(drop, "\n") + "\n")
 						dbl := append(append(append([]string{}, lines[:k+1]...), lines[k]), lines[k+1:]...)
 						try(strings.Join(dbl, "\n") + "\n")
+					}
+				}
+			case "readersconc-ref":
+				// the canonical schedule of the concurrent-readers scenarios against the two gap encodings
+				for _, st := range []string{">a\nAC-GT\n>b x\nNN-AC\n>c\nRY--A\n", ">a\nAC\n-GT\n>b\nNN\n-AC\n"} {
+					call := Call{Cmd: "readersconc", Msa: st, NCPU: 2}
+					o := call.Canon()
+					want := ""
+					for gi, hard := range []bool{true, false} {
+						ea := encoding.MakeEncodingArray()
+						if hard {
+							ea = encoding.MakeEncodingArrayHardGaps()
+						}
+						want += []string{"stream/hard ", "list/soft "}[gi]
+						recs, _ := refParse(st)
+						for _, r := range recs {
+							enc := make([]byte, len(r.Seq))
+							for k := 0; k < len(r.Seq); k++ {
+								enc[k] = ea[r.Seq[k]]
+							}
+							want += fmt.Sprintf("%s:%v;", r.ID, enc)
+						}
+						want += "\n"
+					}
+					res.Evals++
+					res.Nontrivial++
+					if o.Outcome != "returned" || o.Out != want {
+						res.Violate("fasta:concurrent-readers-canonical", fmt.Sprintf("two readers at once on %q give %s %q; expected %q", st, o.Outcome, o.Out, want), c16Case{Stream: st})
 					}
 				}
 			case "many":
